@@ -37,6 +37,9 @@ func alphabet() [][]string {
 	for _, x := range selArgs {
 		a = append(a, []string{"SELECT", x})
 	}
+	// the command name in other letter cases (the dispatcher folds names; whatever else looks at the
+	// name before it must agree)
+	a = append(a, []string{"select", "1"}, []string{"Select", "1"}, []string{"sElEcT", "0"})
 	a = append(a, []string{"select", "1", "2"}, []string{"SELECT"},
 		[]string{"@reconnect"},
 		[]string{"SET", "k", "@"}, []string{"GET", "k"}, []string{"DEL", "k"}, []string{"KEYS", "*"}, []string{"EXISTS", "k"}, []string{"APPEND", "k", "x"})
